@@ -631,4 +631,243 @@ Proof.
   destruct (H r2) as (m' & C & HR' & Hst'). exists m'; split; [exact C|]. cbn [Post]; auto.
 Qed.
 
+(* ------------------------------------------------------------ KDestroy *)
+Lemma exec_kdestroy : forall f w, exec fixed env (S f) KDestroy w =
+  match first (ws w) with
+  | [] => Ok (w, 0)
+  | _ :: _ =>
+      let l := first (ws w) in
+      let b := last l (mkB 0 0 0 None 0) in
+      let w0 := set_state (mkS (removelast l) (is_iter (ws w)) (needs_del (ws w))) w in
+      let notify := (b_ev b =? 0) || has (b_flags b) (BIND_UNBIND + BIND_DESTROY) in
+      rbind (if notify
+             then exec fixed env f (KCall (b_fn b) (b_data b) (EV_UNBIND + EV_DESTROY))
+                       (log (TCallB (b_data b) (EV_UNBIND + EV_DESTROY)) w0)
+             else Ok (w0, 0))
+            (fun '(w1, _) => exec fixed env f KDestroy w1)
+  end.
+Proof. reflexivity. Qed.
+
+Lemma find_live_mid : forall l1 a l2, (forall x, In x l1 -> a_name x <> a_name a) ->
+  find_live (a_name a) (l1 ++ a :: l2) = Some a.
+Proof.
+  induction l1 as [|x l1 IH]; intros a l2 H; unfold find_live; cbn [app find].
+  - rewrite Z.eqb_refl; reflexivity.
+  - destruct (a_name x =? a_name a) eqn:E.
+    + apply Z.eqb_eq in E. exfalso; apply (H x); cbn; auto.
+    + apply IH. intros y Hy; apply H; cbn; auto.
+Qed.
+
+Lemma filter_all : forall (A : Type) (f : A -> bool) l, (forall x, In x l -> f x = true) -> filter f l = l.
+Proof.
+  induction l as [|a l IH]; intros H; [reflexivity|]. cbn [filter]. rewrite (H a) by (cbn; auto).
+  f_equal; apply IH; intros; apply H; cbn; auto.
+Qed.
+
+Lemma filter_none : forall (A : Type) (f : A -> bool) l, (forall x, In x l -> f x = false) -> filter f l = [].
+Proof.
+  induction l as [|a l IH]; intros H; [reflexivity|]. cbn [filter]. rewrite (H a) by (cbn; auto).
+  apply IH; intros; apply H; cbn; auto.
+Qed.
+
+Lemma sound_kdestroy : forall f, Sound f -> forall w m, Pre KDestroy w m ->
+  match exec fixed env (S f) KDestroy w with
+  | Fault => False | OutOfFuel => True
+  | Ok (w', r) => exists m', Com w m w' m' /\ Post KDestroy m w' m' r
+  end.
+Proof.
+  intros f IH w m ((zs & HR) & Hst). rewrite exec_kdestroy.
+  destruct (first (ws w)) as [|b0 l0] eqn:El.
+  - exists m; split; [apply com_refl|]. cbn [Post]. split; [exists zs; exact HR|]. split; [exact Hst|exact El].
+  - cbv zeta. rewrite <- El.
+    pose proof HR as [Hinv Hlive Hn Hpos Hiter Hquiet Hafter].
+    assert (Hne : first (ws w) <> []) by (rewrite El; discriminate).
+    set (b := last (first (ws w)) (mkB 0 0 0 None 0)).
+    set (l' := removelast (first (ws w))).
+    assert (Hl : first (ws w) = l' ++ [b]) by (apply app_removelast_last; exact Hne).
+    assert (Hit : is_iter (ws w) = false) by (rewrite Hiter, Hst; reflexivity).
+    pose proof (si_del _ _ Hinv (si_iter _ _ Hinv Hit)) as Hall.
+    rewrite Hl, forallb_app in Hall. apply andb_true_iff in Hall; destruct Hall as (Hall' & Hlb).
+    cbn [forallb] in Hlb. rewrite andb_true_r in Hlb.
+    pose proof (si_nodes _ _ Hinv) as Hnodes. rewrite Hl in Hnodes. apply Forall_app in Hnodes.
+    destruct Hnodes as (Hnodes' & Hnb). inversion Hnb as [|? ? Hnb' _]; subst.
+    pose proof (si_sorted _ _ Hinv) as Hsorted. rewrite Hl in Hsorted. unfold names in Hsorted.
+    rewrite map_app in Hsorted. apply sorted_app_inv in Hsorted. destruct Hsorted as (Hsorted' & _ & Hlt).
+    assert (Hbefore : forall x, In x l' -> b_data x < b_data b).
+    { intros x Hx. apply Hlt; [apply in_map; exact Hx|cbn; auto]. }
+    set (s0 := mkS l' (is_iter (ws w)) (needs_del (ws w))).
+    assert (Hinv0 : SInv (wn w) s0).
+    { constructor; cbn [s0 first is_iter needs_del]; auto.
+      - pose proof (si_ids _ _ Hinv) as Hids. rewrite Hl, filter_app, map_app in Hids.
+        cbn [filter] in Hids. rewrite Hlb in Hids. cbn [map] in Hids.
+        apply NoDup_remove_1 in Hids. rewrite app_nil_r in Hids. exact Hids.
+      - apply (si_iter _ _ Hinv). }
+    assert (Habs : abs_list (first (ws w)) = abs_list l' ++ [abs_of b]).
+    { rewrite Hl, abs_list_app. f_equal. unfold abs_list; cbn [filter]. rewrite Hlb. reflexivity. }
+    set (w0 := set_state s0 w).
+    set (notify := (b_ev b =? 0) || has (b_flags b) (BIND_UNBIND + BIND_DESTROY)).
+    assert (Hasked : asked_destroy (abs_of b) = notify).
+    { unfold asked_destroy, notify; cbn [abs_of a_ev a_flags]. rewrite has_or, orb_assoc. reflexivity. }
+    (* the step for this node *)
+    assert (Hmid : match (if notify
+                          then exec fixed env f (KCall (b_fn b) (b_data b) (EV_UNBIND + EV_DESTROY))
+                                    (log (TCallB (b_data b) (EV_UNBIND + EV_DESTROY)) w0)
+                          else Ok (w0, 0)) with
+                   | Fault => False | OutOfFuel => True
+                   | Ok (w1, _) => exists m1, Com w m w1 m1 /\ (exists zs1, RelD w1 m1 zs1) /\ m_stack m1 = [FDestroy]
+                   end).
+    { destruct notify eqn:En.
+      - set (m1 := mkM (abs_list l') (m_n m) [FCall; FDestroy]).
+        assert (Hxs : forall x, In x (abs_list l') -> a_name x < b_data b).
+        { intros x Hx. apply abs_in_live in Hx; destruct Hx as (b' & Hb' & _ & ->). cbn [abs_of a_name]. auto. }
+        assert (Hzs : forall z, In z zs -> b_data b < a_name z).
+        { intros z Hz. rewrite Forall_forall in Hafter. specialize (Hafter _ Hz). rewrite Forall_forall in Hafter.
+          apply Hafter. rewrite Hl. apply in_or_app; right; cbn; auto. }
+        assert (Hstep : mon_step m (TCallB (b_data b) (EV_UNBIND + EV_DESTROY)) = inl m1).
+        { unfold mon_step. rewrite Hst, Hlive, Habs, <- app_assoc. cbn [app].
+          change (b_data b) with (a_name (abs_of b)) at 1. rewrite find_live_mid.
+          2:{ intros x Hx. specialize (Hxs _ Hx). cbn [abs_of a_name]. lia. }
+          rewrite Hasked, Z.eqb_refl. cbn [negb].
+          replace (existsb _ (abs_list l' ++ abs_of b :: zs)) with false.
+          2:{ symmetry. apply not_true_is_false. intros Hex. apply existsb_exists in Hex.
+              destruct Hex as (x & Hx & Hc). apply andb_true_iff in Hc; destruct Hc as (Hc1 & Hc2).
+              apply Z.ltb_lt in Hc1. apply in_app_or in Hx. destruct Hx as [Hx|[<-|Hx]].
+              - specialize (Hxs _ Hx); lia.
+              - cbn [abs_of a_name] in Hc1; lia.
+              - rewrite Forall_forall in Hquiet. rewrite (Hquiet _ Hx) in Hc2. discriminate. }
+          unfold m1. f_equal. f_equal. rewrite filter_app. cbn [filter abs_of a_name]. rewrite Z.ltb_irrefl.
+          rewrite filter_all, filter_none, app_nil_r; auto.
+          - intros z Hz. apply Z.ltb_ge. specialize (Hzs _ Hz). lia.
+          - intros x Hx. apply Z.ltb_lt. apply Hxs; exact Hx. }
+        set (w1 := log (TCallB (b_data b) (EV_UNBIND + EV_DESTROY)) w0).
+        assert (HR1 : Rel w1 m1).
+        { constructor; cbn [w1 w0 log set_state ws wn m1 m_live m_n m_stack s0 first is_iter needs_del]; auto.
+          rewrite app_nil_r; reflexivity. }
+        assert (Hfn : b_fn b <> None) by (destruct Hnb' as (_ & Hlv & _); apply Hlv; exact Hlb).
+        pose proof (IH (KCall (b_fn b) (b_data b) (EV_UNBIND + EV_DESTROY)) w1 m1) as H1. cbn [Pre] in H1.
+        specialize (H1 (conj Hfn (conj HR1 (ex_intro _ _ eq_refl)))).
+        destruct (exec fixed env f (KCall (b_fn b) (b_data b) (EV_UNBIND + EV_DESTROY)) w1) as [[w2 r2]| |]; auto.
+        destruct H1 as (m2 & C12 & HR2 & Hst2). cbn [Post m1 m_stack tl ret_stack] in Hst2.
+        exists m2. split; [|split; [exists []; exact HR2|exact Hst2]].
+        eapply com_trans; [|exact C12|].
+        + split; [|split].
+          * exists [TCallB (b_data b) (EV_UNBIND + EV_DESTROY)]; split; [reflexivity|].
+            cbn [rev app mon_run]; rewrite Hstep; reflexivity.
+          * apply mono_subset; [reflexivity|]. cbn [m1 m_live]. rewrite Hlive, Habs.
+            intros x Hx. apply in_or_app; left. apply in_or_app; left; exact Hx.
+          * intros Hi; rewrite Hit in Hi; discriminate.
+        + intros Hi; rewrite Hit in Hi; discriminate.
+      - exists m. split; [|split; [|exact Hst]].
+        + split; [apply steps_same_trace; reflexivity|split; [apply mono_refl|]].
+          intros Hi; rewrite Hit in Hi; discriminate.
+        + exists (abs_of b :: zs). constructor; cbn [w0 set_state ws wn s0 first is_iter needs_del]; auto.
+          * rewrite Hlive, Habs, <- app_assoc. reflexivity.
+          * constructor.
+            -- rewrite Forall_forall. intros x Hx. cbn [abs_of a_name]. auto.
+            -- rewrite Forall_forall in *. intros z Hz. specialize (Hafter _ Hz). rewrite Forall_forall in *.
+               intros x Hx. apply Hafter. rewrite Hl. apply in_or_app; left; exact Hx. }
+    fold b l' s0 w0 notify.
+    destruct (if notify
+              then exec fixed env f (KCall (b_fn b) (b_data b) (EV_UNBIND + EV_DESTROY))
+                        (log (TCallB (b_data b) (EV_UNBIND + EV_DESTROY)) w0)
+              else Ok (w0, 0)) as [[w1 r1]| |]; cbn [rbind]; auto.
+    destruct Hmid as (m1 & C01 & HR1 & Hst1).
+    pose proof (IH KDestroy w1 m1) as H2. cbn [Pre] in H2. specialize (H2 (conj HR1 Hst1)).
+    destruct (exec fixed env f KDestroy w1) as [[w2 r2]| |]; auto.
+    destruct H2 as (m2 & C12 & HP). exists m2. split; [|exact HP].
+    eapply com_trans; [exact C01|exact C12|]. intros Hi; rewrite Hit in Hi; discriminate.
+Qed.
+
+(* ------------------------------------------------------------ KAct ADestroy *)
+Lemma sound_destroy : forall f, Sound f -> forall w m, Pre (KAct ADestroy) w m ->
+  match exec fixed env (S f) (KAct ADestroy) w with
+  | Fault => False | OutOfFuel => True
+  | Ok (w', r) => exists m', Com w m w' m' /\ Post (KAct ADestroy) m w' m' r
+  end.
+Proof.
+  intros f IH w m (HR & _ & _ & Hst). specialize (Hst eq_refl).
+  change (exec fixed env (S f) (KAct ADestroy) w) with
+    (rbind (exec fixed env f KDestroy (log TDestroyB w)) (fun '(w1, _) => Ok (log TDestroyE w1, 0))).
+  set (m1 := mkM (m_live m) (m_n m) [FDestroy]).
+  assert (Hstep : mon_step m TDestroyB = inl m1) by (unfold mon_step; rewrite Hst; reflexivity).
+  assert (HR1 : RelD (log TDestroyB w) m1 []).
+  { eapply relD_change; [exact HR| | | | |]; try reflexivity. cbn [m1 m_stack]. rewrite Hst. reflexivity. }
+  pose proof (IH KDestroy (log TDestroyB w) m1) as H1. cbn [Pre] in H1.
+  specialize (H1 (conj (ex_intro _ _ HR1) eq_refl)).
+  destruct (exec fixed env f KDestroy (log TDestroyB w)) as [[w2 r2]| |]; cbn [rbind]; auto.
+  destruct H1 as (m2 & C12 & (zs2 & HR2) & Hst2 & Hempty).
+  pose proof HR2 as [Hinv2 Hlive2 Hn2 Hpos2 Hiter2 Hquiet2 _].
+  rewrite Hempty in Hlive2. cbn [abs_list filter map app] in Hlive2.
+  set (m' := mkM [] (m_n m2) []).
+  assert (Hstep2 : mon_step m2 TDestroyE = inl m').
+  { unfold mon_step. rewrite Hst2, Hlive2.
+    replace (existsb asked_destroy zs2) with false; [reflexivity|].
+    symmetry. apply not_true_is_false. intros Hex. apply existsb_exists in Hex. destruct Hex as (z & Hz & Ha).
+    rewrite Forall_forall in Hquiet2. rewrite (Hquiet2 _ Hz) in Ha. discriminate. }
+  assert (Hit : is_iter (ws w) = false) by (rewrite (rel_iter _ _ HR), Hst; reflexivity).
+  exists m'. split.
+  - eapply com_trans; [apply com_log; [exact Hstep|reflexivity|apply incl_refl]| |].
+    + eapply com_trans; [exact C12|apply com_log; [exact Hstep2|reflexivity|]|].
+      * intros x [].
+      * cbn [log ws]. intros Hi; rewrite Hit in Hi; discriminate.
+    + cbn [log ws]. auto.
+  - cbn [Post]. split; [|cbn [m' m_stack]; symmetry; exact Hst].
+    constructor; cbn [log ws wn m' m_live m_n m_stack]; auto.
+    + rewrite Hempty. reflexivity.
+    + rewrite Hiter2, Hst2. reflexivity.
+Qed.
+
+(* ------------------------------------------------------------ all together *)
+Lemma sound_all : forall fuel, Sound fuel.
+Proof.
+  induction fuel as [|f IH]; intros t w m HP; [exact I|].
+  destruct t as [fn name flags|acts|a|wf ev cur|].
+  - apply sound_call; assumption.
+  - apply sound_acts; assumption.
+  - destruct a as [ev flags hid|id|ev|ev|].
+    + apply sound_bind; assumption.
+    + apply sound_unbind; assumption.
+    + apply sound_emit; assumption.
+    + apply sound_emitwf; assumption.
+    + apply sound_destroy; assumption.
+  - apply sound_loop; assumption.
+  - apply sound_kdestroy; assumption.
+Qed.
+
 End Sound.
+
+(* ------------------------------------------------------------ the top level *)
+Lemma rel_init : Rel init_world init_mstate.
+Proof.
+  constructor; cbn; auto; try lia.
+  constructor; cbn; auto; constructor.
+Qed.
+
+Theorem run_sound : forall env, env_ok env -> forall ops, Forall top_ok ops -> forall fuel,
+  match run fixed env fuel ops with
+  | Fault => False
+  | OutOfFuel => True
+  | Ok (w, _) => verdict (rev (wt w)) = None /\ swept (ws w) = true /\ ids_ok (ws w) = true
+  end.
+Proof.
+  intros env Henv ops Hops fuel. unfold run.
+  pose proof (sound_all env Henv fuel (KActs ops) init_world init_mstate) as H. cbn [Pre] in H.
+  assert (Hok : Forall (act_ok (m_stack init_mstate)) ops).
+  { eapply Forall_impl; [|exact Hops]. intros a Ha; split; auto. }
+  specialize (H (conj rel_init (conj eq_refl Hok))).
+  destruct (exec fixed env fuel (KActs ops) init_world) as [[w r]| |]; auto.
+  destruct H as (m' & ((evs & Hevs & Hrun) & _ & _) & HR & Hst). cbn [Post init_mstate m_stack] in *.
+  cbn [init_world wt] in Hevs. rewrite app_nil_r in Hevs. subst evs.
+  destruct HR as [Hinv Hlive Hn Hpos Hiter _ _].
+  assert (Hit : is_iter (ws w) = false) by (rewrite Hiter, Hst; reflexivity).
+  pose proof (si_iter _ _ Hinv Hit) as Hnd. pose proof (si_del _ _ Hinv Hnd) as Hall.
+  split; [|split].
+  - unfold verdict. rewrite Hrun, Hst. reflexivity.
+  - unfold swept. rewrite Hit, Hnd. fold live. rewrite Hall. reflexivity.
+  - unfold ids_ok, live_ids. fold live. apply andb_true_iff; split.
+    + apply forallb_forall. intros i Hi. apply in_map_iff in Hi. destruct Hi as (b & <- & Hb).
+      apply filter_In in Hb. destruct Hb as (Hb & Lv). pose proof (si_nodes _ _ Hinv) as Hnodes.
+      rewrite Forall_forall in Hnodes. destruct (Hnodes _ Hb) as (_ & Hl & _). apply Z.ltb_lt. apply Hl; exact Lv.
+    + pose proof (si_ids _ _ Hinv) as Hids. induction Hids as [|x l Hx Hl IHl]; [reflexivity|].
+      cbn [nodupZ]. rewrite memZ_false by exact Hx. exact IHl.
+Qed.
